@@ -406,7 +406,7 @@ impl<'a, 'r, 'o, 'd, 'i, 'c> Subject<'a, 'r, 'o, 'd, 'i, 'c> {
         // This array is an important optimization that prevents searching down
         // the stack for openers we've previously searched for and know don't
         // exist, preventing exponential blowup on pathological cases.
-        let mut openers_bottom: [usize; 12] = [stack_bottom; 12];
+        let mut openers_bottom: [usize; 17] = [stack_bottom; 17];
 
         // This is traversing the stack from the top to the bottom, setting `closer` to
         // the delimiter directly above `stack_bottom`. In the case where we are processing
@@ -437,8 +437,8 @@ impl<'a, 'r, 'o, 'd, 'i, 'c> Subject<'a, 'r, 'o, 'd, 'i, 'c> {
                     b'^' => 2,
                     b'"' => 3,
                     b'\'' => 4,
-                    b'_' => 5,
-                    b'*' => 6 + (if c.can_open { 3 } else { 0 }) + (c.length % 3),
+                    b'_' => 5 + (if c.can_open { 3 } else { 0 }) + (c.length % 3),
+                    b'*' => 11 + (if c.can_open { 3 } else { 0 }) + (c.length % 3),
                     _ => unreachable!(),
                 };
 
@@ -542,7 +542,11 @@ impl<'a, 'r, 'o, 'd, 'i, 'c> Subject<'a, 'r, 'o, 'd, 'i, 'c> {
                 // so that the `opener` search can avoid looking for this
                 // same opener at the bottom of the stack later.
                 if !opener_found {
-                    if !mod_three_rule_invoked {
+                    // For `*` and `_`, `ix` separates closers by `can_open` and
+                    // `length % 3`, which is all the rule of three looks at on
+                    // the closer's side: an opener skipped for this closer is
+                    // skipped for every later closer of the same class too.
+                    if !mod_three_rule_invoked || matches!(old_c.delim_char, b'*' | b'_') {
                         openers_bottom[ix] = old_c.position;
                     }
 
